@@ -66,7 +66,7 @@ def extra(ctx, rng):
                                               "explanation": "with exactly this set of CPU features the picker selects code compiled for an instruction set the CPU does not have"})
         if variant == "native" or not bad:
             c2lean_pickers.emit_lean(pk, gcm, gr, gen_path)
-            p = subprocess.run(["lake", "build", "Generated"], cwd=vcore.LEAN, capture_output=True, text=True)
+            p = subprocess.run(["lake", "build", "+Generated.Obligations"], cwd=vcore.LEAN, capture_output=True, text=True)
             ctx.obligations.append({"theorem": "Sodium.Generated.pickers_sound/pickers_fallback/gcm_sound [%s]" % variant, "axioms": ["(decide +kernel over generated table)"]})
             if p.returncode == 0:
                 ctx.discharged += 1
